@@ -1142,7 +1142,14 @@ func (app *App) ErrorHandler(ctx Ctx, err error) error {
 
 	path := ctx.Path()
 	for prefix, subApp := range app.mountFields.appList {
-		if prefix == "" || subApp.configured.ErrorHandler == nil || !hasMountPrefix(path, prefix, app.config.CaseSensitive) {
+		if prefix == "" || subApp.configured.ErrorHandler == nil {
+			continue
+		}
+		// The router serves an app mounted at "api" under "/api".
+		if prefix[0] != '/' {
+			prefix = "/" + prefix
+		}
+		if !hasMountPrefix(path, prefix, app.config.CaseSensitive) {
 			continue
 		}
 		// Every candidate is a prefix of the same path, so two different candidates differ in
